@@ -220,5 +220,5 @@ OBLIGATIONS = [
     Ob("C15.2", "add/remove operations and hash_to_index_lookup change in lock-step with one index expression", c15_2, floor=7, engines="DF"),
     Ob("C15.3", "index assignment, index read-back and lock order are mutually inverse affine maps", c15_3, floor=7, engines="LIN"),
     Ob("C15.4", "work-set consumption consistency in meld_new_hashes (pop only)", c15_4, floor=6, engines="DF,CFG", breaks_if="orphan subtree waiting on a block that arrives in the same batch as another of its children"),
-    Ob("C15.5", "one notion of `known hash`; the rebuilt finder keeps every tree", c15_5, floor=7, engines="DF,CFG", breaks_if="re-delivery of a locked header; orphans delivered before a lock"),
+    Ob("C15.5", "one notion of `known hash`; the rebuilt finder keeps every tree", c15_5, floor=6, engines="DF,CFG", breaks_if="re-delivery of a locked header; orphans delivered before a lock"),
 ]
